@@ -6,6 +6,7 @@ import (
 	"fmt"
 	"os"
 	"path/filepath"
+	"sort"
 	"strings"
 
 	blocks "github.com/ipfs/go-block-format"
@@ -13,6 +14,7 @@ import (
 	"github.com/ipld/go-car/v2/blockstore"
 	"github.com/ipld/go-car/v2/index"
 	"github.com/ipld/go-car/v2/storage"
+	"github.com/multiformats/go-multihash"
 
 	"verif/drv"
 	"verif/kit"
@@ -80,6 +82,7 @@ type c06Store struct {
 	bs     *blockstore.ReadWrite
 	st     *storage.StorageCar
 	byPath bool // bs opened with OpenReadWrite(path): finish with FinalizeReadOnly + Close
+	mhKeys bool // Keys() could only list multihashes
 	whole  bool
 }
 
@@ -198,7 +201,16 @@ func (s *c06Store) Keys() ([]cid.Cid, error) {
 	if s.bs == nil {
 		ii, ok := s.st.Index().(*index.InsertionIndex)
 		if !ok {
-			return nil, drv.ErrNoListing
+			it, ok := s.st.Index().(index.IterableIndex)
+			if !ok {
+				return nil, drv.ErrNoListing
+			}
+			s.mhKeys = true
+			err := it.ForEach(func(mh multihash.Multihash, _ uint64) error {
+				out = append(out, cid.NewCidV1(cid.Raw, mh))
+				return nil
+			})
+			return out, err
 		}
 		err := ii.ForEachCid(func(c cid.Cid, _ uint64) error {
 			out = append(out, c)
@@ -331,12 +343,14 @@ func c06Class(se *c06Sess, i, t int) string {
 			}
 		case "finalize":
 			switch {
-			case ord == n-1:
+			case r.Off >= refcar.PragmaSize+refcar.V2HeaderSize:
+				part = "index"
+			case r.Off == refcar.PragmaSize+16:
 				part = "v2hdr-fields"
-			case ord == n-2:
+			case len(r.Data) <= 16:
 				part = "v2hdr-chars"
 			default:
-				part = "index"
+				part = "v2hdr-whole"
 			}
 		case "resume":
 			switch {
@@ -372,8 +386,9 @@ func c06IndexOnDisk(se *c06Sess, i, t int) int {
 	}
 	start, end := se.callStart(r.Call), se.tr.CallEnd[r.Call]
 	n := 0
-	for k := start; k < end-2 && k <= i; k++ {
-		if se.tr.Log[k].Kind != "write" {
+	for k := start; k < end && k <= i; k++ {
+		// writes into the CARv2 header area [11,51) are the header, whatever their number and order
+		if se.tr.Log[k].Kind != "write" || se.tr.Log[k].Off < refcar.PragmaSize+refcar.V2HeaderSize {
 			continue
 		}
 		if k < i {
@@ -525,24 +540,32 @@ func (m *c06Img) inflight() []kit.Blk {
 	return out
 }
 
-// c06SectionsIntact reports the first acknowledged block whose section was in img and is no longer
-// at the same offset in after.
-func c06SectionsIntact(img, after []byte, acked []kit.Blk) (string, bool) {
+// c06SectionsIntact reports the first acknowledged block that had a section in img and has no
+// intact copy left in after: a block is destroyed when none of the sections that carried it in img
+// is still there at its offset. copyLost tells that some copy (not the last one) of an acknowledged
+// block went away, which the statement allows (e.g. a trimmed tail holding a duplicate).
+func c06SectionsIntact(img, after []byte, acked []kit.Blk) (name string, ok, copyLost bool) {
 	for _, b := range acked {
 		sec := refcar.EncodeSection(b.Ref())
+		was, still := 0, 0
 		for from := 0; ; {
 			k := bytes.Index(img[from:], sec)
 			if k < 0 {
 				break
 			}
 			k += from
-			if len(after) < k+len(sec) || !bytes.Equal(after[k:k+len(sec)], sec) {
-				return b.Name, false
+			was++
+			if len(after) >= k+len(sec) && bytes.Equal(after[k:k+len(sec)], sec) {
+				still++
 			}
 			from = k + 1
 		}
+		if was > 0 && still == 0 {
+			return b.Name, false, copyLost
+		}
+		copyLost = copyLost || still < was
 	}
-	return "", true
+	return "", true, copyLost
 }
 
 var c06QueryNames = []string{"a", "b", "c", "e", "a'", "a0", "i", "i0", "L300", "L70000"}
@@ -584,8 +607,10 @@ func c06CheckImage(x *kit.Ctx, m *c06Img) {
 		}
 		// must not have destroyed any acknowledged block already on disk
 		after, _ := os.ReadFile(path)
-		if name, ok := c06SectionsIntact(img, after, acked); !ok {
+		if name, ok, copyLost := c06SectionsIntact(img, after, acked); !ok {
 			fail("c06:"+class+":acked-block-destroyed-by-refused-reopen", "reopen failed (%v) and destroyed acknowledged block %s", err, name)
+		} else if copyLost {
+			x.Outcome("beyond-statement:refused-reopen-removed-a-duplicate-copy")
 		}
 		if !bytes.Equal(after, img) {
 			x.Outcome("reopen-refused-file-modified")
@@ -699,11 +724,13 @@ func c06CheckImage(x *kit.Ctx, m *c06Img) {
 			corrupt(src, "resumed store has %s but Get fails: %v", q.Name, gerr)
 		}
 	}
-	if keys, err := s.Keys(); err != nil {
+	if keys, err := s.Keys(); err == drv.ErrNoListing {
+		x.Outcome("beyond-statement:store-cannot-be-listed")
+	} else if err != nil {
 		fail("c06:"+class+":listing-error", "listing the resumed store failed: %v", err)
 	} else {
 		// the blockstore lists multihash keys unless UseWholeCIDs; the storage index holds the CIDs as put
-		wholeKeys := o.Whole || s.bs == nil
+		wholeKeys := (o.Whole || s.bs == nil) && !s.mhKeys
 		for _, k := range keys {
 			src := justify(k.Bytes(), wholeKeys)
 			if src == nil {
@@ -730,7 +757,7 @@ func c06CheckImage(x *kit.Ctx, m *c06Img) {
 			}
 			found := false
 			for _, k := range keys {
-				if o.Whole {
+				if o.Whole && !s.mhKeys {
 					found = found || bytes.Equal(k.Bytes(), b.Raw)
 				} else {
 					found = found || bytes.Equal([]byte(k.Hash()), multihashBytes(b.Raw))
@@ -837,7 +864,17 @@ func c06CheckImage(x *kit.Ctx, m *c06Img) {
 		// exact payload: acknowledged sections in put order (each once unless duplicates are allowed),
 		// whatever prefix of the interrupted call had reached the disk, then the continuation
 		if exp := c06Expected(o, m.gens, cont); !exp[strings.Join(seq, ",")] {
-			fail("c06:"+class+":wrong-sections-after-continue", "final archive holds sections [%s]; the sessions and the continuation allow only %v", c06Names(seq), c06NamesSet(exp))
+			// the statement fixes which sections the archive holds (and how many copies, through the
+			// documented put rules), not their order: the same multiset in another order is recorded
+			sameBag := false
+			for k := range exp {
+				sameBag = sameBag || c06Bag(strings.Split(k, ",")) == c06Bag(seq)
+			}
+			if sameBag {
+				x.Outcome("beyond-statement:sections-in-another-order")
+			} else {
+				fail("c06:"+class+":wrong-sections-after-continue", "final archive holds sections [%s]; the sessions and the continuation allow only %v", c06Names(seq), c06NamesSet(exp))
+			}
 		}
 	}
 	var wantRoots [][]byte
@@ -857,8 +894,8 @@ func c06CheckImage(x *kit.Ctx, m *c06Img) {
 		fail("c06:"+class+":malformed-after-continue", "final archive is not an indexed CARv2")
 		return
 	}
-	if got, want := recMultiset(fl.IndexCodec, fl.Index), recMultiset(fl.IndexCodec, refcar.RecordsOf(fl.Payload, o.StoreID)); got != want {
-		fail("c06:"+class+":malformed-after-continue", "final index {%s} does not match the payload {%s}", got, want)
+	if msg := c06IndexCovers(fl, o.StoreID); msg != "" {
+		fail("c06:"+class+":malformed-after-continue", "final index {%s} does not fit the payload {%s}: %s", recMultiset(fl.IndexCodec, fl.Index), recMultiset(fl.IndexCodec, refcar.RecordsOf(fl.Payload, o.StoreID)), msg)
 	}
 	if fl.IndexCodec != codecNum(o) {
 		fail("c06:"+class+":wrong-header-after-continue", "final index has codec %#x, the options ask for %#x", fl.IndexCodec, codecNum(o))
@@ -872,6 +909,45 @@ func c06CheckImage(x *kit.Ctx, m *c06Img) {
 	if h.FullyIndexed() {
 		x.Outcome("final-fully-indexed")
 	}
+}
+
+// c06IndexCovers: every index record is a section of the payload with that digest (soundness), and every
+// CID of the payload has at least one record pointing at a section that carries it (coverage). Several
+// copies of one CID need not all be indexed.
+func c06IndexCovers(fl *refcar.File, storeID bool) string {
+	want := map[string]bool{}
+	for _, r := range refcar.RecordsOf(fl.Payload, storeID) {
+		want[recKey(fl.IndexCodec, r)] = true
+	}
+	indexedAt := map[uint64]bool{}
+	for _, r := range fl.Index {
+		if !want[recKey(fl.IndexCodec, r)] {
+			return "record " + recKey(fl.IndexCodec, r) + " is not a section of the payload"
+		}
+		indexedAt[r.Offset] = true
+	}
+	covered := map[string]bool{}
+	for _, sec := range fl.Payload.Sections {
+		if indexedAt[sec.Offset] {
+			covered[string(sec.Cid)] = true
+		}
+	}
+	for _, sec := range fl.Payload.Sections {
+		if sec.Info.MhCode == refcar.MhIdentity && !storeID {
+			continue
+		}
+		if !covered[string(sec.Cid)] {
+			return fmt.Sprintf("no record for CID %x", sec.Cid)
+		}
+	}
+	return ""
+}
+
+// c06Bag is the multiset of a section sequence.
+func c06Bag(seq []string) string {
+	l := append([]string{}, seq...)
+	sort.Strings(l)
+	return strings.Join(l, ",")
 }
 
 func c06Names(seq []string) string {
@@ -949,8 +1025,10 @@ func c06Mismatch(x *kit.Ctx, rc C06Case, img []byte, acked []kit.Blk, class stri
 		} else {
 			x.Outcome("mismatch-" + v.tag + "-reopen-refused")
 			after, _ := os.ReadFile(path)
-			if name, ok := c06SectionsIntact(img, after, acked); !ok {
+			if name, ok, copyLost := c06SectionsIntact(img, after, acked); !ok {
 				x.FailCase(rc, "c06:"+class+":acked-block-destroyed-by-refused-reopen:mismatch-"+v.tag, "reopen with mismatching %s failed (%v) and destroyed acknowledged block %s", v.tag, err, name)
+			} else if copyLost {
+				x.Outcome("beyond-statement:refused-reopen-removed-a-duplicate-copy")
 			}
 			if !bytes.Equal(after, img) {
 				x.Outcome("mismatch-" + v.tag + "-reopen-refused-file-modified")
@@ -1270,7 +1348,7 @@ func init() {
 		Run:    runC06,
 		Decode: kit.DecodeAs[C06Case],
 		Rule: "for every writing session of the bound (open, Put/PutMany incl. payloads > 255 and > 65535 bytes, duplicates, CIDv0 / sha2-512 / truncated / blake2b / identity CIDs, finalize) x option configurations x front-ends, and for second- and third-generation sessions that resume a complete or crashed image of the previous one: the REAL write order is recorded through the build-tag write seam plus file diffing (pragma, Truncate); " +
-			"EVERY crash image = every prefix of the log with the next write torn at every length (all lengths for writes <= 64 bytes, {1,2,mid,len-2,len-1} for larger data writes in quick, all in thorough) is reopened and judged per image: refusal must leave every acknowledged section at its offset (what a refused reopen leaves behind is reopened once more); success must serve every acknowledged block, list them, serve nothing that was not put (all session blocks + 10 fixed probes, every listed key fetched; whole-CID keys under UseWholeCIDs), then Put(in-flight again), Put(an acknowledged block again), Put(c), Get, Finalize must give a strictly decodable archive whose section sequence is exactly one the model allows and whose header fields follow the options; " +
+			"EVERY crash image = every prefix of the log with the next write torn at every length (all lengths for writes <= 64 bytes, {1,2,mid,len-2,len-1} for larger data writes in quick, all in thorough) is reopened and judged per image: refusal must leave at least one intact copy of the section of every acknowledged block at its offset (what a refused reopen leaves behind is reopened once more); success must serve every acknowledged block, list them (AllKeysChan; for the storage front-end the insertion index, else any iterable index by multihash, else outcome beyond-statement:store-cannot-be-listed), serve nothing that was not put (all session blocks + 10 fixed probes, every listed key fetched; whole-CID keys under UseWholeCIDs), then Put(in-flight again), Put(an acknowledged block again), Put(c), Get, Finalize must give a strictly decodable archive whose sections are exactly those the model allows (acknowledged puts, a prefix of the interrupted call, the continuation, copies per the documented put rules; the same multiset in another order is the outcome beyond-statement:sections-in-another-order), whose index is sound (every record is a section with that digest) and covers every CID of the payload (copies of one CID need not all be indexed), and whose header fields follow the options; " +
 			"complete images are also reopened with mismatching roots / data padding (refusal must not destroy blocks); non-trivial = image with a torn write",
 		Bound: func(tier string) map[string]any {
 			return map[string]any{
@@ -1285,6 +1363,7 @@ func init() {
 		Assumptions: []string{"crash model = the property's: a prefix of the issued writes with the last one torn (the library issues no syncs, so no reordering dimension)", "a torn write past EOF extends the file only up to the torn length",
 			"later generations are enumerated only from images the front-end accepts to resume (the refusal of the others is judged by the previous generation's case)",
 			"a refusal at a clean call boundary is allowed by C06 (counted as outcome reopen-refused-at-call-boundary; C12 owns resumability)",
+			"writes of a Finalize call are classed by target offset (below 51 = CARv2 header, else index padding / index), not by their number or order; the class only names signatures (known finding class A)",
 			"resume.go's DataSize==0 branch is unreachable (Header.ReadFrom rejects it first) and is not claimed as covered"},
 	})
 }
